@@ -227,6 +227,7 @@ static Grid_Generator rgg(int n, bool must_point) {
   return grid_line(e);
 }
 static Vec vec_of(const Linear_Expression& e, int n, Q& b) { Vec a; ref::conv(e, n, a, b); return a; }
+static Vec vec_of(const Constraint& c, int n, Q& b) { Vec a(n); for (int i = 0; i < n && i < (int) c.space_dimension(); ++i) a[i] = ref::toQ(c.coefficient(Variable(i))); b = ref::toQ(c.inhomogeneous_term()); return a; }
 
 // ---------- the mutator table ----------
 struct Op {
@@ -317,7 +318,7 @@ static bool make_op(Op& op, int n, const Shadow& SA, const std::string& profile)
       if (!nontrivial_ineq) { expect_same(op.name, cls_of(A), E, R, "receiver " + show(A.L)); return; }
       // refine_ with a proper inequality: "ignored"; anything between (E n halfspaces) and E is a refinement
       Lattice lo = E;
-      for (size_t i = 0; i < cv.size() && !lo.empty; ++i) if (!cv[i].is_equality() && !cv[i].is_tautological() && !cv[i].is_inconsistent()) { Q b; Vec a = vec_of(Linear_Expression(cv[i]), n, b); lo = hull_halfspace(lo, a, b, cv[i].is_strict_inequality() ? 4 : 3); }
+      for (size_t i = 0; i < cv.size() && !lo.empty; ++i) if (!cv[i].is_equality() && !cv[i].is_tautological() && !cv[i].is_inconsistent()) { Q b; Vec a = vec_of(cv[i], n, b); lo = hull_halfspace(lo, a, b, cv[i].is_strict_inequality() ? 4 : 3); }
       expect_between(op.name, cls_of(A), lo, E, R, "receiver " + show(A.L));
     };
     return true;
@@ -426,7 +427,7 @@ static bool make_op(Op& op, int n, const Shadow& SA, const std::string& profile)
     op.apply = [=](Grid& A, const Grid&) { if (pre) A.generalized_affine_preimage(Variable(v), REL5[ri], e, d, m); else A.generalized_affine_image(Variable(v), REL5[ri], e, d, m); };
     op.verify = [=](const Shadow& A, const Shadow&, const Shadow& R) {
       Q eb; Vec ea = vec_of(e, n, eb); Vec lc(n); lc[v] = 1; Vec ra(n); for (int j = 0; j < n; ++j) ra[j] = ea[j] / Q(d); Q rb = eb / Q(d);
-      std::string cls = cls_of(A) + (ri != 2 ? ",inequality" : m != 0 ? ",modular" : "") + (ea[v] == 0 ? ",non-invertible" : "");
+      std::string cls = cls_of(A) + (ri != 2 ? ",inequality" : m != 0 ? ",modular" : "") + (ea[v] == 0 ? ",non-invertible" : (pre && m != 0 && ref::qabs(ea[v]) != ref::qabs(Q(d))) ? ",coefficient!=denominator" : "");
       if (ri == 2) { expect_same(op.name, cls, ref::rel_image(A.L, lc, Q(0), ra, rb, Q(m), pre), R, "receiver " + show(A.L)); return; }
       // inequality: the defined set is not a grid; smallest grid containing it .. cylinder on var
       std::vector<bool> vs(n, false); vs[v] = true; Lattice hi = cylinder(A.L, vs), lo = hi;
@@ -499,3 +500,450 @@ static bool make_op(Op& op, int n, const Shadow& SA, const std::string& profile)
   return false;
 }
 
+
+// ---------- crash containment ----------
+// Some defects kill the process (sanitizer report, abort).  Operations on the configurations known to
+// be dangerous are first tried in a forked child: if the child dies, the death is reported as a
+// violation observed on the real code and the parent does not execute the call.
+#include <sys/wait.h>
+static bool survives_in_child(const std::function<void()>& f, std::string& report) {
+  int fd[2]; if (pipe(fd) != 0) return true;
+  fflush(stdout); fflush(stderr); if (hx::st().out) fflush(hx::st().out);
+  pid_t pid = fork();
+  if (pid < 0) { close(fd[0]); close(fd[1]); return true; }
+  if (pid == 0) {
+    close(fd[0]); dup2(fd[1], 2); alarm(30);
+    try { f(); } catch (...) { }
+    _exit(0);
+  }
+  close(fd[1]);
+  char buf[512]; ssize_t r; report.clear();
+  while ((r = read(fd[0], buf, sizeof buf)) > 0) if (report.size() < 3000) report.append(buf, r);
+  close(fd[0]);
+  int st = 0; waitpid(pid, &st, 0);
+  if (WIFEXITED(st) && WEXITSTATUS(st) == 0) return true;
+  std::ostringstream o; if (WIFSIGNALED(st)) o << "child killed by signal " << WTERMSIG(st); else o << "child exit status " << WEXITSTATUS(st);
+  size_t e = report.find("runtime error"); if (e == std::string::npos) e = report.find("ERROR: AddressSanitizer");
+  std::string first = e == std::string::npos ? report.substr(0, 300) : report.substr(e, 300);
+  size_t fr = report.find("#4 "); std::string frames = fr == std::string::npos ? "" : report.substr(fr, 700);
+  report = o.str() + ": " + first + " ... " + frames;
+  return false;
+}
+static bool unmarked_empty(const Grid& g, const Lattice& L) { return L.empty && status_line(g).find("-EM") != std::string::npos; }
+
+// ---------- queries (C05.q.*) ----------
+// A wrong answer of a pure query builds no state: report it and let the case go on.
+static void qviol(const std::string& key, const std::string& detail) { violation(key, detail); hx::st().case_tainted = false; hx::count("soft_violations"); }
+static const char* tf(bool b) { return b ? "true" : "false"; }
+
+static void run_queries(Grid& A, const Grid& B, int n, const Shadow& SA, const Shadow& SB, const std::string& pre, int ai, int bi) {
+  const Lattice& LA = SA.L; const Lattice& LB = SB.L;
+  const bool ne = !LA.empty;
+  const std::string cls = cls_of(SA), cls2 = cls_of(SA, SB);
+  const std::string ctx = " receiver " + show(LA);
+  int which = rnd(0, 13);
+  switch (which) {
+  case 0: {
+    tr(pre + ".preds()"); hx::count("q.preds");
+    Lattice c = LA; ref::canonicalize(c);
+    bool e = A.is_empty(); checked(); if (e != !ne) qviol("C05.q.is_empty:" + cls, std::string("PPL ") + tf(e) + ctx);
+    bool u = A.is_universe(); checked(); if (u != (ne && (int) c.lines.size() == n)) qviol("C05.q.is_universe:" + cls, std::string("PPL ") + tf(u) + ctx);
+    bool d = A.is_discrete(); checked(); if (d != (!ne || c.lines.empty())) qviol("C05.q.is_discrete:" + cls, std::string("PPL ") + tf(d) + ctx);
+    bool b = A.is_bounded(); checked(); if (b != (!ne || (c.lines.empty() && c.params.empty()))) qviol("C05.q.is_bounded:" + cls, std::string("PPL ") + tf(b) + ctx);
+    bool t = A.is_topologically_closed(); checked(); if (!t) qviol("C05.q.is_topologically_closed:" + cls, "false" + ctx);
+    break; }
+  case 1: case 2: {
+    tr(pre + ".binary_preds(#" + std::to_string(bi) + ")"); hx::count("q.binary");
+    std::string c2 = cls2 + (ai == bi ? ",alias" : "");
+    std::string cx = " A " + show(LA) + " B " + show(LB);
+    bool rc = ref::included(LB, LA), rcb = ref::included(LA, LB);
+    bool c = A.contains(B); checked(); if (c != rc) qviol("C05.q.contains:" + c2, std::string("PPL ") + tf(c) + cx);
+    bool sc = A.strictly_contains(B); checked(); if (sc != (rc && !rcb)) qviol("C05.q.strictly_contains:" + c2, std::string("PPL ") + tf(sc) + cx);
+    bool dj = A.is_disjoint_from(B); checked(); bool rd = ref::intersect(LA, LB).empty; if (dj != rd) qviol("C05.q.is_disjoint_from:" + c2, std::string("PPL ") + tf(dj) + cx);
+    bool eq = (A == B); checked(); if (eq != (rc && rcb)) qviol("C05.q.equals:" + c2, std::string("PPL ") + tf(eq) + cx);
+    bool nq = (A != B); checked(); if (nq == eq) qviol("C05.q.not_equals:" + c2, "operator!= agrees with operator==" + cx);
+    break; }
+  case 3: case 4: {
+    Congruence cg = rcg(n);
+    tr(pre + ".relation_with(" + str(cg) + ")"); hx::count("q.relation_with_cg");
+    Poly_Con_Relation r = A.relation_with(cg);
+    Cg rc = conv(cg, n);
+    bool some, every; ref::vs_vs_modulus(ref::values(LA, rc.a, Q(-rc.b)), rc.m, some, every);
+    bool included = every, disjoint = !some;
+    bool b_dis = r.implies(Poly_Con_Relation::is_disjoint()), b_inc = r.implies(Poly_Con_Relation::is_included()), b_str = r.implies(Poly_Con_Relation::strictly_intersects()), b_sat = r.implies(Poly_Con_Relation::saturates());
+    checked();
+    std::string c3 = cls + (cg.is_equality() ? ",equality" : "");
+    std::string d = str(cg) + " -> " + str(r) + " expected " + (disjoint ? "disjoint " : "") + (included ? "included " : "") + (!disjoint && !included ? "strictly_intersects" : "") + ctx;
+    if (b_dis != disjoint) qviol("C05.q.relation_with_cg.is_disjoint:" + c3, d);
+    else if (b_inc != included) qviol("C05.q.relation_with_cg.is_included:" + c3, d);
+    else if (b_str != (!disjoint && !included)) qviol("C05.q.relation_with_cg.strictly_intersects:" + c3, d);
+    else if (ne && cg.is_equality() && b_sat != included) qviol("C05.q.relation_with_cg.saturates:" + c3, d);
+    break; }
+  case 5: {
+    int kind = rnd(0, 9);
+    Linear_Expression e = rexpr(n);
+    Constraint c = kind < 3 ? (e == 0) : kind < 7 ? (e >= 0) : (e > 0);
+    tr(pre + ".relation_with(" + str(c) + ")"); hx::count("q.relation_with_c");
+    Poly_Con_Relation r = A.relation_with(c);
+    Q b; Vec a = vec_of(e, n, b);
+    ValSet v = ref::values(LA, a, b);
+    bool some, every;
+    if (c.is_equality()) ref::vs_vs_modulus(v, Q(0), some, every);
+    else if (v.kind == ValSet::NONE) { some = false; every = true; }
+    else if (v.kind == ValSet::CONST) { some = every = c.is_strict_inequality() ? v.base > 0 : v.base >= 0; }
+    else { some = true; every = false; }   // values unbounded in both directions
+    bool included = every, disjoint = !some;
+    bool b_dis = r.implies(Poly_Con_Relation::is_disjoint()), b_inc = r.implies(Poly_Con_Relation::is_included()), b_str = r.implies(Poly_Con_Relation::strictly_intersects()), b_sat = r.implies(Poly_Con_Relation::saturates());
+    checked();
+    std::string c3 = cls + (c.is_equality() ? ",equality" : c.is_strict_inequality() ? ",strict" : ",nonstrict");
+    std::string d = str(c) + " -> " + str(r) + " expected " + (disjoint ? "disjoint " : "") + (included ? "included " : "") + (!disjoint && !included ? "strictly_intersects" : "") + ctx;
+    if (b_dis != disjoint) qviol("C05.q.relation_with_c.is_disjoint:" + c3, d);
+    else if (b_inc != included) qviol("C05.q.relation_with_c.is_included:" + c3, d);
+    else if (b_str != (!disjoint && !included)) qviol("C05.q.relation_with_c.strictly_intersects:" + c3, d);
+    else if (ne && c.is_equality() && b_sat != included) qviol("C05.q.relation_with_c.saturates:" + c3, d);
+    break; }
+  case 6: {
+    bool poly = coin(35);
+    bool subs; std::string gs; Poly_Gen_Relation r = Poly_Gen_Relation::nothing();
+    if (!poly) {
+      Grid_Generator g = rgg(n, false);
+      // bias towards generators that are subsumed
+      if (ne && n > 0 && coin(50)) { Lattice c = LA; ref::canonicalize(c); Vec x = c.p; bool par = coin(35) && !c.params.empty(); if (par) x = c.params[rnd(0, (int) c.params.size() - 1)]; else for (size_t i = 0; i < c.params.size(); ++i) { int m = rnd(-2, 2); for (int d = 0; d < n; ++d) x[d] += m * c.params[i][d]; }
+        mpz_class l = 1; for (int d = 0; d < n; ++d) { mpz_class den = x[d].get_den(); mpz_lcm(l.get_mpz_t(), l.get_mpz_t(), den.get_mpz_t()); }
+        Linear_Expression e; for (int d = 0; d < n; ++d) { Q v = x[d] * Q(l); e += Coefficient(v.get_num()) * Variable(d); }
+        int sc = rnd(1, 2); e *= sc; g = par ? parameter(e, Coefficient(l * sc)) : grid_point(e, Coefficient(l * sc)); }
+      gs = str(g); tr(pre + ".relation_with(" + gs + ")"); hx::count("q.relation_with_gg");
+      r = A.relation_with(g);
+      RGen rg = conv(g, n);
+      subs = ne && (rg.kind == 'p' ? ref::member(LA, rg.v) : rg.kind == 'q' ? [&]{ Lattice c = LA; ref::canonicalize(c); return ref::dir_member(c, rg.v); }() : ref::line_member(LA, rg.v));
+    } else {
+      Generator g = rand_gen(n, true, false);
+      gs = str(g); tr(pre + ".relation_with(" + gs + ")"); hx::count("q.relation_with_g");
+      r = A.relation_with(g);
+      ref::Gen rg = ref::conv(g, n);
+      subs = ne && ((rg.kind == ref::Gen::POINT || rg.kind == ref::Gen::CLOSURE_POINT) ? ref::member(LA, rg.v) : ref::line_member(LA, rg.v));
+    }
+    checked();
+    if (r.implies(Poly_Gen_Relation::subsumes()) != subs) qviol(std::string("C05.q.relation_with_g") + (poly ? ".poly:" : ":") + cls, gs + (subs ? " is subsumed, PPL says nothing;" : " is not subsumed, PPL says subsumes;") + ctx);
+    break; }
+  case 7: case 8: {
+    Linear_Expression e = rexpr(n, 3, 40); bool mx = (which == 7);
+    tr(pre + (mx ? ".maximize(" : ".minimize(") + str(e) + ")"); hx::count("q.max_min");
+    Coefficient num = 12345, den = 6789; bool att = false; Generator g(point());
+    bool ok = mx ? A.maximize(e, num, den, att, g) : A.minimize(e, num, den, att, g);
+    Coefficient num2 = 12345, den2 = 6789; bool att2 = false; bool ok2 = mx ? A.maximize(e, num2, den2, att2) : A.minimize(e, num2, den2, att2);
+    bool bf = mx ? A.bounds_from_above(e) : A.bounds_from_below(e);
+    Q b; Vec a = vec_of(e, n, b); ValSet v = ref::values(LA, a, b);
+    bool rb = (v.kind == ValSet::CONST);
+    std::string c3 = cls + (b != 0 ? ",inhomogeneous" : "");
+    std::string nm = mx ? "maximize" : "minimize";
+    checked(3);
+    if (ne && bf != rb) { qviol("C05.q.bounds_from:" + cls, std::string("PPL ") + tf(bf) + " for " + str(e) + ctx); break; }
+    if (ok != rb) { qviol("C05.q." + nm + ".status:" + c3, std::string("PPL ") + tf(ok) + " for " + str(e) + ctx); break; }
+    if (ok2 != ok) { qviol("C05.q." + nm + ".overloads_disagree:" + c3, "status"); break; }
+    if (!ok) { if (num != 12345 || den != 6789 || num2 != 12345 || den2 != 6789) qviol("C05.q." + nm + ".outputs_touched:" + c3, "outputs modified although false was returned"); break; }
+    if (den == 0) { qviol("C05.q." + nm + ".value:" + c3, "zero denominator"); break; }
+    Q val = ref::toQ(num) / ref::toQ(den); val.canonicalize();
+    if (val != v.base) { qviol("C05.q." + nm + ".value:" + c3, "PPL " + showq(val) + " expected " + showq(v.base) + " for " + str(e) + ctx); break; }
+    if (den2 == 0 || ref::toQ(num2) / ref::toQ(den2) != val || att2 != att) { qviol("C05.q." + nm + ".overloads_disagree:" + c3, "value/flag"); break; }
+    if (!att) { qviol("C05.q." + nm + ".attained_flag:" + c3, "extremum reported as not attained"); break; }
+    ref::Gen rg = ref::conv(g, n);
+    if (!g.is_point() || !ref::member(LA, rg.v)) { qviol("C05.q." + nm + ".witness_member:" + c3, "witness " + str(g) + " is not a point of the grid;" + ctx); break; }
+    if (ref::dot(a, rg.v) + b != val) qviol("C05.q." + nm + ".witness_value:" + c3, "witness " + str(g) + " does not evaluate to " + showq(val));
+    break; }
+  case 9: {
+    tr(pre + ".affine_dimension()"); hx::count("q.affine_dimension");
+    int ad = A.affine_dimension(); int rad = ref::affine_dim(LA);
+    checked(); if (ad != rad) { std::ostringstream o; o << "PPL " << ad << " expected " << rad << ctx; qviol("C05.q.affine_dimension:" + cls, o.str()); }
+    if ((int) A.space_dimension() != n) qviol("C05.q.space_dimension:" + cls, "wrong space dimension");
+    break; }
+  case 10: {
+    if (n == 0) return;
+    int v = rnd(0, n - 1); tr(pre + ".constrains(" + str(Variable(v)) + ")"); hx::count("q.constrains");
+    bool c = A.constrains(Variable(v));
+    if (!ne) return;   // the documentation is silent about empty grids
+    Vec e(n); e[v] = 1; bool rc = !ref::line_member(LA, e);
+    bool axis = false; for (size_t i = 0; i < SA.G.size(); ++i) if (SA.G[i].kind == 'l') { bool only = SA.G[i].v[v] != 0; for (int d = 0; d < n; ++d) if (d != v && SA.G[i].v[d] != 0) only = false; if (only) axis = true; }
+    checked(); if (c != rc) qviol("C05.q.constrains:" + cls + (axis ? ",axis-line-generator" : ""), std::string("PPL ") + tf(c) + " for " + str(Variable(v)) + ctx);
+    break; }
+  case 11: case 12: {
+    Linear_Expression e = rexpr(n, 3, 40); tr(pre + ".frequency(" + str(e) + ")"); hx::count("q.frequency");
+    Coefficient fn = 777, fd = 778, vn = 779, vd = 780; bool f = A.frequency(e, fn, fd, vn, vd);
+    Q b; Vec a = vec_of(e, n, b); ValSet v = ref::values(LA, a, b);
+    bool defined = (v.kind == ValSet::CONST || v.kind == ValSet::PERIODIC);
+    std::string c3 = cls + (b != 0 ? ",inhomogeneous" : "");
+    checked();
+    if (f != defined) { qviol("C05.q.frequency.status:" + c3, std::string("PPL ") + tf(f) + " for " + str(e) + ctx); break; }
+    if (!f) { if (fn != 777 || fd != 778 || vn != 779 || vd != 780) qviol("C05.q.frequency.outputs_touched:" + c3, "outputs modified although false was returned"); break; }
+    if (fd == 0 || vd == 0) { qviol("C05.q.frequency.value:" + c3, "zero denominator"); break; }
+    Q fr = ref::toQ(fn) / ref::toQ(fd), val = ref::toQ(vn) / ref::toQ(vd); fr.canonicalize(); val.canonicalize();
+    Q rf = v.kind == ValSet::CONST ? Q(0) : v.step;
+    if (fr != rf) { qviol("C05.q.frequency.frequency:" + c3, "PPL " + showq(fr) + " expected " + showq(rf) + " for " + str(e) + ctx); break; }
+    if (!ref::vs_contains(v, val)) { qviol("C05.q.frequency.value:" + c3 + ",not-a-value", "PPL value " + showq(val) + " is not taken by " + str(e) + " on the grid;" + ctx); break; }
+    if (v.kind == ValSet::PERIODIC) { // closest to zero: |val| <= step/2
+      if (ref::qabs(val) * 2 > v.step) qviol("C05.q.frequency.value:" + c3 + ",not-closest-to-zero", "PPL value " + showq(val) + " frequency " + showq(v.step) + " for " + str(e) + ctx);
+    }
+    break; }
+  case 13: { // descriptions as constraints: equalities satisfied by the grid, same affine dimension
+    tr(pre + ".constraints()"); hx::count("q.constraints");
+    Grid c1(A); Constraint_System cs = coin() ? c1.constraints() : c1.minimized_constraints();
+    checked();
+    if (!ne) break;
+    std::vector<Vec> rows; std::vector<Vec> pts = gen_points(LA);
+    for (Constraint_System::const_iterator i = cs.begin(), e = cs.end(); i != e; ++i) {
+      if (!i->is_equality()) { if (!i->is_tautological()) { qviol("C05.q.constraints:" + cls, "non-equality " + str(*i) + " reported for a non-empty grid"); return; } continue; }
+      Q b; Vec a = vec_of(*i, n, b);
+      for (size_t k = 0; k < pts.size(); ++k) if (ref::dot(a, pts[k]) + b != 0) { qviol("C05.q.constraints:" + cls, "equality " + str(*i) + " is violated by grid point " + pplx::show(pts[k]) + ctx); return; }
+      rows.push_back(a);
+    }
+    if (n - ref::rank_of(rows, n) != ref::affine_dim(LA) && n > 0) qviol("C05.q.constraints.affine_dimension:" + cls, "constraints " + str(cs) + " do not have the affine dimension of the grid;" + ctx);
+    break; }
+  }
+}
+
+// ---------- dimension-changing operators (on a scratch copy) ----------
+static void dims_op(const Grid& A, const Grid& B, int n, const Shadow& SA, const Shadow& SB, const std::string& pre) {
+  Grid T(A);
+  const Lattice& LA = SA.L; const std::string cls = cls_of(SA);
+  int which = rnd(0, 7);
+  Shadow R; std::ostringstream t; t << pre;
+  const std::string ctx = "receiver " + show(LA);
+  if (which == 0) {
+    int m = rnd(0, 2); bool proj = coin();
+    t << (proj ? ".tmp.add_space_dimensions_and_project(" : ".tmp.add_space_dimensions_and_embed(") << m << ")"; tr(t.str()); hx::count(proj ? "op.add_space_dimensions_and_project" : "op.add_space_dimensions_and_embed");
+    if (proj) T.add_space_dimensions_and_project(m); else T.add_space_dimensions_and_embed(m);
+    if ((int) T.space_dimension() != n + m) { violation("C05.op.add_space_dimensions.dimension:" + cls, "wrong space dimension"); return; }
+    if (!check_dd(T, "add_dims", R)) return;
+    AffMap M(n + m, Vec(n + 1)); for (int i = 0; i < n; ++i) M[i][i] = 1;
+    Lattice E = ref::image(LA, M);
+    if (!proj && !E.empty) for (int i = n; i < n + m; ++i) { Vec e(n + m); e[i] = 1; E.lines.push_back(e); }
+    expect_same(proj ? "add_space_dimensions_and_project" : "add_space_dimensions_and_embed", cls, E, R, ctx);
+  } else if (which == 1 || which == 2) {
+    std::vector<int> keep; Variables_Set vs; std::string nm;
+    if (which == 1) { for (int i = 0; i < n; ++i) { if (coin(40)) vs.insert(Variable(i)); else keep.push_back(i); } nm = "remove_space_dimensions"; t << ".tmp.remove_space_dimensions(" << str(vs) << ")"; }
+    else { int k = rnd(0, n); for (int i = 0; i < k; ++i) keep.push_back(i); nm = "remove_higher_space_dimensions"; t << ".tmp.remove_higher_space_dimensions(" << k << ")"; }
+    tr(t.str()); hx::count("op." + nm);
+    if (which == 2 && status_line(T).find("+GM") != std::string::npos && !LA.empty && keep.size() > 0 && (int) keep.size() < n) {
+      // known-dangerous configuration (minimized generators): try it in a child first
+      hx::count("preflight"); std::string rep; size_t kk = keep.size();
+      if (!survives_in_child([&]() { T.remove_higher_space_dimensions(kk); (void) T.OK(); Grid c(T); (void) c.minimized_grid_generators(); (void) c.minimized_congruences(); }, rep)) {
+        violation("C05.crash.remove_higher_space_dimensions:generators-minimized", rep + " | " + ctx); return; }
+    }
+    if (which == 1) T.remove_space_dimensions(vs); else T.remove_higher_space_dimensions(keep.size());
+    if (T.space_dimension() != keep.size()) { violation("C05.op." + nm + ".dimension:" + cls, "wrong space dimension"); return; }
+    if (!check_dd(T, "remove_dims", R)) return;
+    AffMap M(keep.size(), Vec(n + 1)); for (size_t i = 0; i < keep.size(); ++i) M[i][keep[i]] = 1;
+    expect_same(nm, cls, ref::image(LA, M), R, ctx);
+  } else if (which == 3 && n >= 1) {
+    int i = rnd(0, n - 1), m = rnd(0, 2);
+    t << ".tmp.expand_space_dimension(" << str(Variable(i)) << "," << m << ")"; tr(t.str()); hx::count("op.expand_space_dimension");
+    T.expand_space_dimension(Variable(i), m);
+    if ((int) T.space_dimension() != n + m) { violation("C05.op.expand_space_dimension.dimension:" + cls, "wrong space dimension"); return; }
+    if (!check_dd(T, "expand", R)) return;
+    // { (x, y_1..y_m) | x in L and x[i := y_j] in L for every j }
+    Lattice E = ref::lat_empty(n + m);
+    if (!LA.empty) {
+      std::vector<Cg> c = ref::to_congruences(LA), sys;
+      for (size_t k = 0; k < c.size(); ++k) for (int j = -1; j < m; ++j) { Cg g; g.a.assign(n + m, Q(0)); for (int d = 0; d < n; ++d) g.a[(d == i && j >= 0) ? n + j : d] = c[k].a[d]; g.b = c[k].b; g.m = c[k].m; sys.push_back(g); }
+      E = ref::from_congruences(n + m, sys);
+    }
+    expect_same("expand_space_dimension", cls, E, R, ctx);
+  } else if (which == 4 && n >= 2) {
+    int i = rnd(0, n - 1); std::vector<int> J; Variables_Set vs; for (int j = 0; j < n; ++j) if (j != i && coin(60)) { J.push_back(j); vs.insert(Variable(j)); }
+    t << ".tmp.fold_space_dimensions(" << str(vs) << "," << str(Variable(i)) << ")"; tr(t.str()); hx::count("op.fold_space_dimensions");
+    T.fold_space_dimensions(vs, Variable(i)); int k = n - J.size();
+    if ((int) T.space_dimension() != k) { violation("C05.op.fold_space_dimensions.dimension:" + cls, "wrong space dimension"); return; }
+    if (!check_dd(T, "fold", R)) return;
+    std::vector<int> keepidx; for (int j = 0; j < n; ++j) if (std::find(J.begin(), J.end(), j) == J.end()) keepidx.push_back(j);
+    std::vector<int> srcs = J; srcs.push_back(i);
+    Lattice E = ref::lat_empty(k);
+    for (size_t s = 0; s < srcs.size(); ++s) { AffMap M(k, Vec(n + 1)); for (int j = 0; j < k; ++j) M[j][keepidx[j] == i ? srcs[s] : keepidx[j]] = 1; E = ref::join(E, ref::image(LA, M)); }
+    expect_same("fold_space_dimensions", cls, E, R, ctx);
+  } else if (which == 5) {
+    t << ".tmp.concatenate_assign(B)"; tr(t.str()); hx::count("op.concatenate_assign");
+    T.concatenate_assign(B);
+    if ((int) T.space_dimension() != 2 * n) { violation("C05.op.concatenate_assign.dimension:" + cls, "wrong space dimension"); return; }
+    if (!check_dd(T, "concatenate", R)) return;
+    const Lattice& LB = SB.L; Lattice E = ref::lat_empty(2 * n);
+    if (!LA.empty && !LB.empty) {
+      E.empty = false; for (int d = 0; d < n; ++d) { E.p[d] = LA.p[d]; E.p[n + d] = LB.p[d]; }
+      auto lift = [&](const Vec& v, int off) { Vec w(2 * n); for (int d = 0; d < n; ++d) w[off + d] = v[d]; return w; };
+      for (size_t q = 0; q < LA.params.size(); ++q) E.params.push_back(lift(LA.params[q], 0));
+      for (size_t q = 0; q < LB.params.size(); ++q) E.params.push_back(lift(LB.params[q], n));
+      for (size_t q = 0; q < LA.lines.size(); ++q) E.lines.push_back(lift(LA.lines[q], 0));
+      for (size_t q = 0; q < LB.lines.size(); ++q) E.lines.push_back(lift(LB.lines[q], n));
+    }
+    expect_same("concatenate_assign", cls_of(SA, SB), E, R, ctx + " B " + show(LB));
+  } else if (which == 6 && n >= 1) {
+    Partial_Function pf; std::vector<int> img(n, -1); std::vector<int> order; for (int j = 0; j < n; ++j) order.push_back(j); std::shuffle(order.begin(), order.end(), hx::rng());
+    int k = rnd(0, n); for (int j = 0; j < k; ++j) img[order[j]] = j;
+    std::ostringstream ms; for (int j = 0; j < n; ++j) if (img[j] >= 0) { pf.insert(j, img[j]); ms << j << "->" << img[j] << " "; }
+    t << ".tmp.map_space_dimensions(" << ms.str() << ")"; tr(t.str()); hx::count("op.map_space_dimensions");
+    T.map_space_dimensions(pf);
+    if ((int) T.space_dimension() != k) { violation("C05.op.map_space_dimensions.dimension:" + cls, "wrong space dimension"); return; }
+    if (!check_dd(T, "map_dims", R)) return;
+    AffMap M(k, Vec(n + 1)); for (int j = 0; j < n; ++j) if (img[j] >= 0) M[img[j]][j] = 1;
+    expect_same("map_space_dimensions", cls, ref::image(LA, M), R, ctx);
+  } else if (which == 7) { // constructors from the object's own descriptions
+    int how = rnd(0, 4);
+    const char* nm[5] = { "Grid(cgs)", "Grid(cgs,recycle)", "Grid(ggs)", "Grid(ggs,recycle)", "Grid(cs)" };
+    tr(pre + ".rebuild:" + nm[how]); hx::count(std::string("op.construct.") + nm[how]);
+    Grid c(A); std::unique_ptr<Grid> Rg;
+    if (how <= 1) { Congruence_System cgs = coin() ? c.congruences() : c.minimized_congruences(); if (how == 0) Rg.reset(new Grid(cgs)); else Rg.reset(new Grid(cgs, Recycle_Input())); if ((int) Rg->space_dimension() < n) Rg->add_space_dimensions_and_embed(n - Rg->space_dimension()); }
+    else if (how <= 3) { Grid_Generator_System gs = coin() ? c.grid_generators() : c.minimized_grid_generators(); if (how == 2) Rg.reset(new Grid(gs)); else Rg.reset(new Grid(gs, Recycle_Input())); if ((int) Rg->space_dimension() < n) { if (Rg->is_empty()) Rg.reset(new Grid(n, EMPTY)); else Rg->add_space_dimensions_and_project(n - Rg->space_dimension()); } }
+    else { Constraint_System cs = c.constraints(); Rg.reset(new Grid(cs)); if ((int) Rg->space_dimension() < n) Rg->add_space_dimensions_and_embed(n - Rg->space_dimension()); }
+    if (!check_dd(*Rg, "construct", R)) return;
+    if (how == 4 && LA.empty) return;   // constraints() of an empty grid: only 'equalities satisfied by the grid' is promised
+    if (how == 4) { // the equalities only: the affine hull of the grid
+      Lattice E = LA; if (!E.empty) { E.lines.insert(E.lines.end(), E.params.begin(), E.params.end()); E.params.clear(); }
+      expect_same(nm[how], cls, E, R, ctx);
+    } else expect_same(nm[how], cls, LA, R, ctx);
+  }
+}
+
+// ---------- C15: ascii round trip ----------
+static Grid* ascii_roundtrip(const Grid& A, int n, const Shadow& SA, const std::string& pre) {
+  hx::count("ascii_roundtrips"); checked();
+  std::string d1 = dump(A);
+  std::istringstream in(d1);
+  std::unique_ptr<Grid> L(new Grid(0, UNIVERSE));
+  std::string st = status_line(A);
+  tr(pre + ".ascii_roundtrip[" + st + "]");
+  hx::distinct("ascii|" + st + "|" + std::to_string(n) + "|" + shape_of(SA.L));
+  bool okl = L->ascii_load(in);
+  if (!okl) { violation("C15.grid.load_failed", st + "\n" + d1); return 0; }
+  if (!L->OK()) { violation("C15.grid.loaded_not_OK", st + "\n" + d1); return 0; }
+  std::string d2 = dump(*L);
+  if (d2 != d1) { violation("C15.grid.redump_differs", st + "\n" + d1 + "\n---\n" + d2); return 0; }
+  if ((int) L->space_dimension() != n || !ref::same(obs(*L), SA.L)) { violation("C15.grid.value_differs", st + " loaded " + show(obs(*L)) + " original " + show(SA.L)); return 0; }
+  return L.release();
+}
+
+// ---------- initial objects ----------
+static Grid* make_initial(int n, std::string& how_s) {
+  int how = rnd(0, 11); std::ostringstream o;
+  if (how < 4) { // from congruences, one by one
+    Grid* p = new Grid(n); int k = rnd(0, 4); o << "universe"; for (int j = 0; j < k; ++j) { Congruence c = rcg(n); o << ".add_congruence(" << str(c) << ")"; p->add_congruence(c); } how_s = o.str(); return p; }
+  if (how < 6) { // from a congruence system
+    Congruence_System cgs; int k = rnd(0, 4); o << "Grid(cgs:"; for (int j = 0; j < k; ++j) { Congruence c = rcg(n); o << " " << str(c) << ";"; cgs.insert(c); }
+    bool rec = coin(); Grid* p = rec ? new Grid(cgs, Recycle_Input()) : new Grid(cgs);
+    if ((int) p->space_dimension() < n) p->add_space_dimensions_and_embed(n - p->space_dimension());
+    o << (rec ? " recycle)" : ")"); how_s = o.str(); return p; }
+  if (how < 9) { // from generators, one by one
+    Grid* p = new Grid(n, EMPTY); int k = rnd(1, 4); o << "empty"; for (int j = 0; j < k; ++j) { Grid_Generator g = rgg(n, j == 0); o << ".add_grid_generator(" << str(g) << ")"; p->add_grid_generator(g); } how_s = o.str(); return p; }
+  if (how < 11) { // from a generator system
+    Grid_Generator_System gs; int k = rnd(1, 4); o << "Grid(ggs:"; for (int j = 0; j < k; ++j) { Grid_Generator g = rgg(n, j == 0); o << " " << str(g) << ";"; gs.insert(g); }
+    bool rec = coin(); Grid* p = rec ? new Grid(gs, Recycle_Input()) : new Grid(gs);
+    if ((int) p->space_dimension() < n) p->add_space_dimensions_and_project(n - p->space_dimension());
+    o << (rec ? " recycle)" : ")"); how_s = o.str(); return p; }
+  bool e = coin(); how_s = e ? "EMPTY" : "UNIVERSE"; return new Grid(n, e ? EMPTY : UNIVERSE);
+}
+
+static void run_case(uint64_t) {
+  const std::string profile = hx::opt().profile;
+  if (profile == "selftest") { gridseq_selftest_case(); return; }
+  int dk = rnd(0, 99); int n = dk < 6 ? 0 : dk < 30 ? 1 : dk < 70 ? 2 : 3;
+  if (hx::opt().thorough && dk >= 92) n = 4;
+  const int NP = 3;
+  std::vector<Grid*> pool(NP, (Grid*) 0), twin(NP, (Grid*) 0);
+  struct Cleanup { std::vector<Grid*>& a; std::vector<Grid*>& b; ~Cleanup() { for (size_t i = 0; i < a.size(); ++i) { delete a[i]; delete b[i]; } } } cleanup = { pool, twin };
+  {
+    std::ostringstream o; o << "Grid n=" << n << " init:";
+    for (int i = 0; i < NP; ++i) { std::string how; pool[i] = make_initial(n, how); Grid c(*pool[i]); o << " #" << i << "=" << how << ";"; (void) c; }
+    tr(o.str());
+  }
+  int steps = rnd(4, 12);
+  for (int stp = 0; stp < steps && !hx::st().case_tainted; ++stp) {
+    hx::count("steps");
+    int ai = rnd(0, NP - 1), bi = rnd(0, NP - 1);
+    if (profile == "alias" && coin(35)) bi = ai;
+    Grid& A = *pool[ai]; Grid& B = *pool[bi];
+    std::string stl = status_line(A);
+    hx::count("status." + stl);
+    std::vector<Shadow> S(NP);
+    for (int i = 0; i < NP; ++i) { if (i == ai || i == bi) { if (!check_dd(*pool[i], "pre", S[i])) return; } else S[i].L = obs(*pool[i]); }
+    const Shadow& SA = S[ai]; const Shadow& SB = S[bi];
+    std::string shp = shape_of(SA.L);
+    std::ostringstream pre; pre << " | #" << ai;
+    int receiver = ai;
+    std::string opn = "step";
+    try {
+      Weight_Guard wg(200000000ULL);
+      struct Note { Weight_Guard& g; ~Note() { note_weight("step", g.used()); } } note = { wg };
+      int kind = rnd(0, 99);
+      int w_mut = 50, w_query = 24, w_copy = 6, w_obs = 6, w_ascii = 5, w_dims = 9;
+      if (profile == "dd") { w_mut = 35; w_query = 25; w_obs = 20; w_ascii = 4; w_dims = 10; w_copy = 6; }
+      else if (profile == "ops") { w_mut = 65; w_query = 8; w_obs = 5; w_ascii = 2; w_dims = 15; w_copy = 5; }
+      else if (profile == "alias") { w_mut = 50; w_copy = 25; w_query = 8; w_obs = 5; w_ascii = 4; w_dims = 8; }
+      else if (profile == "ascii") { w_mut = 50; w_ascii = 25; w_query = 8; w_obs = 8; w_copy = 5; w_dims = 4; }
+      if (kind < w_mut) {
+        Op op; int tries = 0; while (!make_op(op, n, SA, profile) && ++tries < 20) op = Op();
+        if (tries >= 20) continue;
+        opn = op.name;
+        std::string text = op.text; size_t pb = text.find("(B)"); if (pb != std::string::npos) text.replace(pb, 3, "(#" + std::to_string(bi) + ")");
+        tr(pre.str() + text); hx::count("op." + op.name);
+        if (nontrivial(SA.L)) hx::distinct("op|" + op.name + "|" + stl + "|" + shp + (SA.nonunit ? "|nu" : "") + (op.uses_b ? "|" + shape_of(SB.L) + (ai == bi ? "|alias" : "") : ""));
+        std::unique_ptr<Grid> X, Y;
+        if (op.uses_b && ai == bi) { X.reset(new Grid(A)); Y.reset(new Grid(A)); }
+        auto preflight = [&](Grid& x, const Grid& y, const char* who) -> bool {
+          if (!(unmarked_empty(x, SA.L) || (op.uses_b && unmarked_empty(y, SB.L)))) return true;
+          hx::count("preflight"); std::string rep;
+          if (survives_in_child([&]() { op.apply(x, y); (void) x.OK(); Grid c(x); (void) c.minimized_grid_generators(); (void) c.minimized_congruences(); }, rep)) return true;
+          violation("C05.crash." + op.name + ":empty-unmarked-operand", rep + " | " + who + " status " + status_line(x) + " receiver congruences " + show(SA.C));
+          return false;
+        };
+        if (!preflight(A, B, "receiver")) return;
+        op.apply(A, B);
+        if ((int) A.space_dimension() != n) { violation("C05.op." + op.name + ".dimension", "space dimension changed"); return; }
+        Shadow R; if (!check_dd(A, op.name, R)) return;
+        if (X.get()) {
+          op.apply(*X, *Y); checked(); hx::count("alias_checks");
+          Lattice XL = obs(*X);
+          if (!ref::same(R.L, XL)) { violation("C13.grid.alias." + op.name, "x.op(x) gives " + show(R.L) + " but x.op(copy of x) gives " + show(XL)); return; }
+        }
+        op.verify(SA, SB, R);
+        if (twin[ai] && !hx::st().case_tainted) {
+          const Grid& argB = (bi == ai) ? *twin[ai] : B;
+          if (!preflight(*twin[ai], argB, "ascii-loaded twin")) return;
+          op.apply(*twin[ai], argB); checked(); hx::count("lockstep_checks");
+          Lattice TL = obs(*twin[ai]);
+          if (!ref::same(R.L, TL)) { violation("C15.grid.lockstep_diverged." + op.name, "loaded twin gives " + show(TL) + " original " + show(R.L)); return; }
+          if (dump(*twin[ai]) != dump(A)) hx::count("lockstep_text_diverged");
+        }
+      }
+      else if ((kind -= w_mut) < w_query) { receiver = -1; opn = "query"; run_queries(A, B, n, SA, SB, pre.str(), ai, bi); if (nontrivial(SA.L)) hx::distinct("query|" + stl + "|" + shp + (SA.nonunit ? "|nu" : "")); }
+      else if ((kind -= w_query) < w_copy) {
+        int how = rnd(0, 4); opn = "copy";
+        if (how == 0) { tr(pre.str() + " = copy(#" + std::to_string(bi) + ")"); hx::count("op.copy_construct"); if (ai != bi) { delete pool[ai]; pool[ai] = new Grid(B); delete twin[ai]; twin[ai] = 0; checked(); Lattice Rl = obs(*pool[ai]); if (!ref::same(Rl, SB.L)) violation("C13.grid.copy_differs", "copy " + show(Rl) + " source " + show(SB.L)); } }
+        else if (how == 1) { tr(pre.str() + " = #" + std::to_string(bi)); hx::count("op.assign"); A = B; delete twin[ai]; twin[ai] = 0; checked(); Lattice Rl = obs(A); if (!ref::same(Rl, SB.L)) violation(ai == bi ? "C13.grid.self_assign" : "C13.grid.assign_differs", "assigned " + show(Rl) + " source " + show(SB.L)); }
+        else if (how == 2 || how == 3) { tr(pre.str() + (how == 2 ? ".m_swap(#" : ".swap(#") + std::to_string(bi) + ")"); hx::count(how == 2 ? "op.m_swap" : "op.swap"); if (how == 2) A.m_swap(B); else { using std::swap; swap(A, B); } std::swap(twin[ai], twin[bi]); checked(); Lattice RA = obs(A), RB = obs(B); if (!ref::same(RA, SB.L) || !ref::same(RB, SA.L)) violation(ai == bi ? "C13.grid.self_swap" : "C13.grid.swap_differs", "swap did not exchange the values"); receiver = -2; }
+        else { tr(pre.str() + ".copy_then_mutate_copy"); hx::count("op.copy_then_mutate"); Grid c(A); c.add_congruence(rcg(n)); if (n > 0 && !c.is_empty()) { c.affine_image(Variable(0), rexpr(n)); c.add_grid_generator(rgg(n, false)); } (void) c.minimized_grid_generators(); receiver = -1; }
+      }
+      else if ((kind -= w_copy) < w_obs) {
+        int k = rnd(0, 6); const char* nm[7] = { "minimized_congruences", "minimized_grid_generators", "congruences", "grid_generators", "is_empty", "hash/memory", "OK" };
+        opn = nm[k]; tr(pre.str() + ".observe:" + nm[k]); hx::count(std::string("obs.") + nm[k]); receiver = -1;
+        if (k == 0) (void) A.minimized_congruences(); else if (k == 1) (void) A.minimized_grid_generators(); else if (k == 2) (void) A.congruences(); else if (k == 3) (void) A.grid_generators();
+        else if (k == 4) (void) A.is_empty(); else if (k == 5) { (void) A.hash_code(); (void) A.total_memory_in_bytes(); (void) A.external_memory_in_bytes(); } else (void) A.OK();
+        hx::distinct("obs|" + std::string(nm[k]) + "|" + stl + "|" + shp);
+        Shadow R; if (!check_dd(A, "observe", R)) return;
+        checked(); if (!ref::same(SA.L, R.L)) { violation(std::string("C05.dd.observer_changed_value.") + nm[k] + ":" + cls_of(SA), "before " + show(SA.L) + " after " + show(R.L)); return; }
+      }
+      else if ((kind -= w_obs) < w_ascii) { receiver = -1; opn = "ascii"; Grid* L = ascii_roundtrip(A, n, SA, pre.str()); if (L) { delete twin[ai]; twin[ai] = L; } }
+      else { receiver = -1; opn = "dims"; dims_op(A, B, n, SA, SB, pre.str()); if (nontrivial(SA.L)) hx::distinct("dims|" + stl + "|" + shp); }
+    } catch (const Logical_Timeout&) {
+      violation("C05.hang.grid." + opn, "logical-time budget (weight 2e8) exceeded; receiver " + show(SA.L));
+      return;
+    } catch (const std::exception& e) {
+      violation("C05.unexpected_exception." + opn + "." + typeid(e).name(), e.what());
+      return;
+    }
+    if (hx::st().case_tainted) return;
+    // every object other than the receiver keeps its value (C13)
+    if (receiver != -2) for (int i = 0; i < NP; ++i) if (i != receiver) {
+      Lattice now = obs(*pool[i]); checked(); hx::count("bystander_checks");
+      if (!ref::same(S[i].L, now)) { violation(std::string(i == bi ? "C13.grid.const_argument_changed." : i == ai ? "C13.grid.query_changed_value." : "C13.grid.bystander_changed.") + opn, "object #" + std::to_string(i) + " changed from " + show(S[i].L) + " to " + show(now)); return; }
+    }
+  }
+}
+
+int main(int argc, char** argv) { return hx::main_loop(argc, argv, run_case); }
